@@ -1,4 +1,5 @@
 import PV.Lemmas.Tree.MorrisClear
+import PV.Generated.TreeLoops
 /-!
 # C12 (heap level) — `p_tree_clear` destroys every pair in ascending order and frees every node once
 
